@@ -8,10 +8,15 @@ mod c05;
 mod c06;
 mod c07;
 mod c08;
+mod c09;
+mod c10;
 mod c13;
 mod c14;
 mod c15;
+mod c16;
 mod c17;
+mod c18;
+mod c19;
 
 use ctx::{Ctx, Tier};
 use std::collections::BTreeMap;
@@ -51,10 +56,15 @@ fn main() {
         "C06" => { c06::run(&mut ctx); ctx.finish("corr.C06", "run_C06"); }
         "C07" => { c07::run(&mut ctx); ctx.finish("corr.C07", "run_C07"); }
         "C08" => { c08::run(&mut ctx); ctx.finish("corr.C08", "run_C08"); }
+        "C09" => { c09::run(&mut ctx); ctx.finish("corr.C09", "run_C09"); }
+        "C10" => { c10::run(&mut ctx); ctx.finish("corr.C10", "run_C10"); }
         "C13" => { c13::run(&mut ctx); ctx.finish("corr.C13", "run_C13"); }
         "C14" => { c14::run(&mut ctx); ctx.finish("corr.C14", "run_C14"); }
         "C15" => { c15::run(&mut ctx); ctx.finish("corr.C15", "run_C15"); }
+        "C16" => { c16::run(&mut ctx); ctx.finish("corr.C16", "run_C16"); }
         "C17" => { c17::run(&mut ctx); ctx.finish("corr.C17", "run_C17"); }
+        "C18" => { c18::run(&mut ctx); ctx.finish("corr.C18", "run_C18"); }
+        "C19" => { c19::run(&mut ctx); let r = if c19::is_fast() { "run_C19_fast" } else { "run_C19_default" }; ctx.finish("corr.C19", r); }
         _ => { eprintln!("unknown property {}", prop); std::process::exit(2); }
     }
 }
